@@ -33,19 +33,29 @@ def main():
     matrix = {}
     if os.path.exists(out_path):
         matrix = json.load(open(out_path))
-    for name in names:
+    jobs = int(arg("--jobs", "4"))
+    workers = arg("--workers", str(max(2, 16 // jobs)))
+    import threading
+    from concurrent.futures import ThreadPoolExecutor
+
+    lock = threading.Lock()
+
+    def one(name):
+        if name in matrix and all(c in matrix[name] for c in checks):
+            return
         wt = f"/tmp/xm_{name}"
         sh(["git", "-C", "/repo", "worktree", "remove", "--force", wt])
         shutil.rmtree(wt, ignore_errors=True)
-        sh(["git", "-C", "/repo", "worktree", "add", "-q", "--detach", wt, "HEAD"])
+        with lock:
+            sh(["git", "-C", "/repo", "worktree", "add", "-q", "--detach", wt, "HEAD"])
         try:
             r = sh(["git", "-C", wt, "apply", os.path.join(BASE, "seeded", name, "patch.diff")])
             if r.returncode != 0:
-                print(name, "patch does not apply", r.stderr[:200])
-                continue
-            row = matrix.setdefault(name, {})
+                print(name, "patch does not apply", r.stderr[:200], flush=True)
+                return
+            row = {}
             for c in checks:
-                env = dict(os.environ, VERIF_REPO=wt, VERIF_SCALE=scale, VERIF_NO_RESAMPLE="1",
+                env = dict(os.environ, VERIF_REPO=wt, VERIF_SCALE=scale, VERIF_NO_RESAMPLE="1", VERIF_WORKERS=workers,
                            VERIF_EVIDENCE_DIR=wt + "_ev", VERIF_REPLAY_DIR=wt + "_rp")
                 t0 = time.monotonic()
                 p = sh([PY, "-m", "dst", "check", c, "--tier", "quick"], cwd=BASE, env=env, timeout=7200)
@@ -55,11 +65,17 @@ def main():
                     row[c]["tail"] = p.stdout.splitlines()[-6:]
                 shutil.rmtree(wt + "_ev", ignore_errors=True)
                 shutil.rmtree(wt + "_rp", ignore_errors=True)
-            print(name, " ".join(f"{c}:{'X' if row[c]['rc'] == 1 else '.' if row[c]['rc'] == 0 else 'E'}" for c in checks), flush=True)
-            json.dump(matrix, open(out_path, "w"), indent=1, sort_keys=True)
+            with lock:
+                matrix[name] = row
+                print(name, " ".join(f"{c}:{'X' if row[c]['rc'] == 1 else '.' if row[c]['rc'] == 0 else 'E'}" for c in checks), flush=True)
+                json.dump(matrix, open(out_path, "w"), indent=1, sort_keys=True)
         finally:
-            sh(["git", "-C", "/repo", "worktree", "remove", "--force", wt])
+            with lock:
+                sh(["git", "-C", "/repo", "worktree", "remove", "--force", wt])
             shutil.rmtree(wt, ignore_errors=True)
+
+    with ThreadPoolExecutor(max_workers=jobs) as ex:
+        list(ex.map(one, names))
 
 
 if __name__ == "__main__":
